@@ -1,5 +1,5 @@
 (* C09 -- A cleanly closed database is a durable checkpoint. *)
-From Pogreb Require Import Base Flat Spec DB DBInv DBLemmas DBProofsRecovery ShapeCheck.
+From Pogreb Require Import Base Flat Spec DB DBInv DBLemmas DBProofsRecovery DBProofsCrash PowerLoss ShapeCheck.
 
 (* Close flushes every file it writes before it closes it; the gob writer flushes; index files are
    flushed; the lock file is released last (regenerated code shape) *)
@@ -15,3 +15,48 @@ Proof.
   destruct (db_close flat_ops s) as [s' o]. cbn [fst]. destruct H as (_ & _ & _ & _ & _ & _ & _ & _ & _ & _ & H). exact H.
 Qed.
 Print Assumptions C09_lock_removed_last.
+
+(* after a completed Close every admissible power-loss image of the whole history IS the closed
+   directory (all files were flushed before the lock file was removed) ... *)
+Theorem C09_closed_directory_is_durable :
+  forall (P : params) (cf0 : cfg) (os : list xop) (cfs : list cfg) (tr : list fsev) (s : st) (c : option cursor)
+         (m : mem) (s1 : st) (o : out) (L' : fset) (img' : disk),
+  params_ok P -> XOpen P cf0 -> xrun P cf0 os cfs tr (s, c) -> s_mem s = Some m ->
+  db_close flat_ops (clear_trace s) = (s1, o) ->
+  pl fnone (s_disk (fst cf0)) (tr ++ s_trace s1) L' img' ->
+  img' = set_orphans (s_disk s1) (d_orphans img') /\ d_segs img' = d_segs (s_disk s1) /\
+  d_index img' = d_index (s_disk s1) /\ d_overflow img' = d_overflow (s_disk s1) /\
+  d_imeta img' = d_imeta (s_disk s1) /\ d_dbmeta img' = d_dbmeta (s_disk s1) /\
+  d_lock img' = false /\ d_bac img' = d_bac (s_disk s1).
+Proof. exact C09_closed_is_durable. Qed.
+Print Assumptions C09_closed_directory_is_durable.
+
+(* ... so the next Open succeeds without recovery and yields exactly the closed contents ... *)
+Theorem C09_next_open : forall (P : params) (seed' : N) (cf0 : cfg) (os : list xop) (cfs : list cfg) (tr : list fsev)
+         (s : st) (c : option cursor) (m : mem) (s1 : st) (o : out) (L' : fset) (img' : disk),
+  params_ok P -> XOpen P cf0 -> xrun P cf0 os cfs tr (s, c) -> s_mem s = Some m ->
+  db_close flat_ops (clear_trace s) = (s1, o) ->
+  pl fnone (s_disk (fst cf0)) (tr ++ s_trace s1) L' img' ->
+  exists s2 : st,
+    db_open flat_ops P seed' (closed img') = (s2, OOpened false) /\ Inv P s2 /\
+    ceq (cont (s_disk s2)) (cont (s_disk s)) /\
+    (exists m2 : mem, s_mem s2 = Some m2 /\ m_idx m2 = m_idx m /\ (forall g : mseg, In g (m_segs m) -> In g (m_segs m2))).
+Proof. exact C09_reopen. Qed.
+Print Assumptions C09_next_open.
+
+(* ... and a power failure DURING that next Open leaves a directory from which a further Open (with or
+   without recovery) yields the closed contents *)
+Theorem C09_power_failure_during_next_open :
+  forall (P : params) (seed' seed'' : N) (cf0 : cfg) (os : list xop) (cfs : list cfg) (tr : list fsev) (s : st)
+         (c : option cursor) (m : mem) (s1 : st) (o : out) (L' : fset) (img' : disk) (es1 es2 : list fsev)
+         (L'' : fset) (img'' : disk),
+  params_ok P -> XOpen P cf0 -> xrun P cf0 os cfs tr (s, c) -> s_mem s = Some m ->
+  db_close flat_ops (clear_trace s) = (s1, o) ->
+  pl fnone (s_disk (fst cf0)) (tr ++ s_trace s1) L' img' ->
+  s_trace (fst (db_open flat_ops P seed' (closed img'))) = es1 ++ es2 ->
+  pl fnone img' es1 L'' img'' ->
+  exists (s3 : st) (b : bool),
+    db_open flat_ops P seed'' (closed img'') = (s3, OOpened b) /\ Inv P s3 /\ s_mem s3 <> None /\
+    ceq (cont (s_disk s3)) (cont (s_disk s)).
+Proof. exact C09_power_loss_during_reopen. Qed.
+Print Assumptions C09_power_failure_during_next_open.
